@@ -248,6 +248,10 @@ def transform_path_to_dotted(sys_path, module_path):
                 if rest.startswith(os.path.sep) or rest.startswith('/'):
                     # Remove a slash in cases it's still there.
                     rest = rest[1:]
+                elif rest and not p.endswith((os.path.sep, '/')):
+                    # `p` is only a string prefix of a differently named
+                    # directory, e.g. /foo/a for /foo/ab/module.py.
+                    continue
 
                 if rest:
                     split = rest.split(os.path.sep)
